@@ -55,6 +55,11 @@ RULE_TEXT = {
     "E6": "the reducer thread never dispatches or enqueues into its own queue synchronously",
     "E7": "on the reducer thread the effects vector is only pushed to, measured, shown to the hooks and drained by the hand-over loop",
     "Q7": "the consumer's receive call returns crossbeam's recv() result directly, without buffering or re-ordering",
+    "SU5": "the shutdown release (unsubscribe-all + clear) is reachable only from the end of the reducer thread, never from client-callable entry points",
+    "Q9": "a dispatch entry point returns Err only when the sender slot is empty or the enqueue was rejected; the sender lock is taken with the blocking lock()",
+    "MW5": "with a non-empty middleware list every action reaches each hook loop (before_dispatch: every notifying action)",
+    "SE5": "last_value is touched only by on_notify/new; the selector subscriber has no lifecycle-dependent state",
+    "IN4": "exported subscriber types change no state in on_unsubscribe",
     "LC3": "every on_unsubscribe call runs with the subscriber-list lock held in its calling context",
     "BU1": "each builder setter returns self and writes only its own option with values from its own parameter (with_* replaces, add_* pushes)",
     "BU2": "build() fails with InitError exactly on: no reducer and not without_reducer, empty name, capacity 0; otherwise calls the constructor",
@@ -148,7 +153,7 @@ PROPS = {
         "not_decided": ["linearizability / FIFO of the bounded channel (trusted)"],
     },
     "C03": {
-        "rules": R(r(P.pi1_one_pass_per_action, only=r"receive events|single-loop:NOTIFY"),
+        "rules": R(S.su5_release_only_on_reducer_thread, r(P.pi1_one_pass_per_action, only=r"receive events|single-loop:NOTIFY"),
                    r(P.pi6_action_identity, only=r"NOTIFY"),
                    r(S.su1_mutators, drop=r"removal:clear|floor:clear"), P.n1_flag, P.n2_guard, P.n3_payload,
                    r(M.mw_table, only=r"(flow|flags):before_dispatch|arm-present:before_dispatch|MW2:.*before_dispatch|count:before_dispatch"),
@@ -167,9 +172,8 @@ PROPS = {
         "not_decided": ["the 3 s timeout", "two racing shutdowns", "shutdown_join semantics (trusted)"],
     },
     "C05": {
-        "rules": R(r(_ch1_block, name="CH1"), r(_ch2_block, name="CH2"), C.ch5_capacity,
-                   r(Q.q2_dequeue_sites, drop=r"consumer-recv-in-loop|receive sites in the consumer"),
-                   B.b1_capacity_zero_rejected, Q.q5_synchronous_enqueue),
+        "rules": R(r(_ch1_block, name="CH1"), r(_ch2_block, name="CH2"), C.ch5_capacity, Q.q2_dequeue_sites,
+                   B.b1_capacity_zero_rejected, Q.q5_synchronous_enqueue, Q.q9_dispatch_fails_only_when_closed),
         "explanation": "Static decision: the dispatch queue is bounded(capacity) with the configured value unmodified (CH5) and >= 1 (B1); the BlockOnFull arm consists of exactly one unbounded blocking send (CH1,CH2) executed synchronously by the caller (Q5); nothing but the consumer removes items (Q2). Waiting/wake-up timing is crossbeam's (trusted).",
         "not_decided": ["'resumes as soon as' / eventual progress (liveness of crossbeam)", "the capacity bound itself is crossbeam's guarantee"],
     },
@@ -186,7 +190,7 @@ PROPS = {
                    r(P.pi1_one_pass_per_action, only=r"receive events|single-loop"),
                    r(P.pi2_phase_order, only=r"order:(HOOK|REDUCE|NOTIFY)[^<]*<(HOOK|REDUCE|NOTIFY)"), P.pi3_full_forward_iteration, T.st4_callbacks_live_in_the_loop,
                    r(S.su1_mutators, drop=r"removal:clear|floor:clear"), S.rg1_registration_order,
-                   r(M.mw_table, only=r"flow:.*:(ContinueAction|DoneAction|Err)|count:")),
+                   r(M.mw_table, only=r"flow:.*:(ContinueAction|DoneAction|Err)|count:"), M.mw5_hooks_on_every_action),
         "explanation": "Static decision: one reducer context (Q1,Q6,ST4); phases in the documented order with no reverse path in the inlined event graph (PI2); each group iterated fully, forward, from the collection read under its lock inside the pass (PI3) whose mutators preserve registration order (SU1,RG1); a hook loop goes on to the next middleware after Continue/Done/Err (MW flow); the next action's callbacks come after the next receive (PI1).",
         "not_decided": ["run-time thread identity (decided as: no callback site outside the reducer thread's synchronous call tree)"],
     },
@@ -198,7 +202,7 @@ PROPS = {
         "not_decided": [],
     },
     "C09": {
-        "rules": R(r(S.su1_mutators, drop=r"append:|floor:push"), S.su2_unsubscribe, S.su3_shutdown_release, S.su4_delivery_atomic_with_membership,
+        "rules": R(r(S.su1_mutators, drop=r"append:|floor:push"), S.su2_unsubscribe, S.su3_shutdown_release, S.su5_release_only_on_reducer_thread, S.su4_delivery_atomic_with_membership,
                    S.lc1_unsubscribe_sites, r(X.ch_channeled_release, name="R2"), r(PI3_NOTIFY, name="PI3")),
         "explanation": "Static decision: unsubscribe removes exactly the identical element of its own store's list under the list lock and releases it once (SU1,SU2); whatever is still listed at shutdown is released once and the list cleared in the same critical section on every path to the end of the reducer thread (SU3); no third release path (LC1); every listed element is visited on each notifying pass (PI3); channeled release is idempotent (R2). Delivery atomic with membership (SU4) is a known finding.",
         "not_decided": [],
@@ -219,7 +223,7 @@ PROPS = {
         "not_decided": ["wall-clock non-interference of slow effects"],
     },
     "C12": {
-        "rules": R(r(P.pi6_action_identity, only=r"HOOK"), M.mw_table, P.mw1_hook_state_args,
+        "rules": R(r(P.pi6_action_identity, only=r"HOOK"), M.mw_table, M.mw5_hooks_on_every_action, P.mw1_hook_state_args,
                    r(E.e2_drain, only=r"MW3:|drain-until-empty|variant-covered|count:"), E.e7_vector_untouched_between_hooks_and_drain,
                    r(P.s1_single_writer, only=r"writers of the state cell|writer-is-reducer-thread|no-other-mutable-access"),
                    r(P.pi2_phase_order, only=r"order:(HOOK:before_reduce<REDUCE|REDUCE<HOOK:before_effect|HOOK:before_effect<HANDOVER|HOOK:before_dispatch<NOTIFY)")),
@@ -233,7 +237,7 @@ PROPS = {
         "not_decided": ["progress inside crossbeam/rusty_pool/std", "a client thread playing two roles itself", "the 3 s timeout masking a hang"],
     },
     "C14": {
-        "rules": R(X.it_iterator, P.n3_payload, P.n2_guard,
+        "rules": R(X.it_iterator, S.su5_release_only_on_reducer_thread, P.n3_payload, P.n2_guard,
                    r(S.su3_shutdown_release, only=r"every-exit-releases|release-after-loop|floor|plain-forward|no-early-exit|in-loop|receiver-from"),
                    r(_ch1_block, name="CH1"), r(_ch2_block, name="CH2"), r(PI3_NOTIFY, name="PI3"),
                    r(P.pi6_action_identity, only=r"NOTIFY")),
@@ -247,7 +251,7 @@ PROPS = {
         "not_decided": ["as C04"],
     },
     "C16": {
-        "rules": R(X.se_selector),
+        "rules": R(X.se_selector, X.se5_last_value_single_writer),
         "explanation": "Decided completely (modulo PartialEq being the user's equality) by exhaustive path enumeration of SelectorSubscriber::on_notify: select once (SE1); first/changed => one on_change(selected, action) then store; equal => nothing (SE2); all under the last_value lock (SE3); initial None and plain registration (SE4).",
         "not_decided": [],
         "exhaustive": True,
@@ -266,7 +270,7 @@ PROPS = {
         "not_decided": ["time-valued metrics", "remaining_queue*"],
     },
     "C19": {
-        "rules": R(IN.in1_no_process_wide_state, IN.in2_fresh_resources, IN.in3_handles_stay_home,
+        "rules": R(IN.in1_no_process_wide_state, IN.in2_fresh_resources, IN.in3_handles_stay_home, IN.in4_public_subscribers_have_no_lifecycle_state,
                    Q.d1_same_store_dispatcher, ME.me9_one_metrics_object),
         "explanation": "Non-interference by separation, all static: no static/thread_local/unsafe/process-global API, third-party callees instance-scoped (IN1); every per-store resource is created in the constructor call (IN2,ME9); handles capture their own store's list, dispatchers wrap their own store, wrappers own their own channel, the name is only formatted (IN3,SU2,D1).",
         "not_decided": ["global state inside the dependencies", "CPU contention"],
